@@ -221,8 +221,8 @@ package parse
 //@ func lexCss
 //@   like stateFn
 //@   loop 0
-//@     invariant lexerOK(l) && l.pos >= old(l.pos)
-//@     decreases len(l.input) - l.pos
+//@     invariant lexerOK(l) && l.pos >= old(l.pos) && (r != eof ==> l.pos - l.width >= l.start && l.width >= 1) && (r == eof ==> l.width == 0)
+//@     decreases len(l.input) - l.pos, ite(r == eof, 0, 1)
 
 //@ func lexLiteral
 //@   like stateFn
